@@ -121,6 +121,9 @@ def build_unit(bdir, unit, log):
         k = header.rindex('#endif')
         header = header[:k] + '\n'.join(alias) + '\n' + header[k:]
     open(b.p('.h'), 'w').write(header); open(b.p('.c'), 'w').write(body)
+    # weak fall-back definitions of the cut functions for native linking (a harness need not stub cuts it never reaches)
+    open(b.p('.weak.c'), 'w').write('#include "%s"\n#include <stdio.h>\n#include <stdlib.h>\n' % hname + ''.join(
+        '__attribute__((weak)) %s { printf("CUT-WITHOUT-STUB\\n"); exit(3); }\n' % pr for pr in info.get('omitted_protos', [])))
     b.info = info; b.ll_text = ll
     b.build_s = time.time() - t0
     log('built unit %s: %d functions translated, %d cut, %.1fs' % (unit.name, len(info['functions']), len(info['omitted']), b.build_s))
@@ -142,8 +145,9 @@ def native_objs(b, log):
             flags = [f for f in CLANG_FLAGS if f not in ('-Xclang', '-disable-llvm-passes')]
             r = sh(['clang++-14'] + flags + ['-g'] + san + ['-D' + d for d in u.defs] + ['-c', os.path.join(ROOT, u.src), '-o', b.p('.real.o')])
         if r.returncode != 0: raise RuntimeError('native build of real code failed for %s:\n%s' % (u.name, r.stdout[-3000:]))
-        r = sh(['gcc', '-O1', '-c', os.path.join(ENG, 'vrt_native.c'), '-o', b.p('.rt.o')])
-        b.native = dict(gen=b.p('.gen.o'), real=b.p('.real.o'), rt=b.p('.rt.o'), san=san)
+        r = sh(['gcc', '-O1', '-w', '-I', b.dir, '-I', ENG, '-c', b.p('.weak.c'), '-o', b.p('.weak.o')])
+        if r.returncode != 0: raise RuntimeError('gcc failed on weak stubs for %s:\n%s' % (u.name, r.stdout[-3000:]))
+        b.native = dict(gen=b.p('.gen.o'), real=b.p('.real.o'), rt=b.p('.rt.o'), san=san, weak=b.p('.weak.o'))
         return b.native
 
 def native_exes(b, ob, log):
@@ -157,9 +161,9 @@ def native_exes(b, ob, log):
     rto = os.path.join(b.dir, tag + '.rt.o')
     r = sh(['gcc', '-O1', '-DVERIF_ENTRY=' + ob.entry, '-c', os.path.join(ENG, 'vrt_native.c'), '-o', rto])
     eg, er = os.path.join(b.dir, tag + '.gen.exe'), os.path.join(b.dir, tag + '.real.exe')
-    r = sh(['gcc', ho, n['gen'], rto, '-o', eg, '-lm'])
+    r = sh(['gcc', ho, n['gen'], n['weak'], rto, '-o', eg, '-lm'])
     if r.returncode != 0: raise RuntimeError('link gen failed %s:\n%s' % (ob.name, r.stdout[-3000:]))
-    r = sh(['clang++-14'] + n['san'] + [ho, n['real'], rto, '-o', er, '-lm'])
+    r = sh(['clang++-14'] + n['san'] + [ho, n['real'], n['weak'], rto, '-o', er, '-lm'])
     if r.returncode != 0: raise RuntimeError('link real failed %s:\n%s' % (ob.name, r.stdout[-3000:]))
     return eg, er
 
@@ -269,7 +273,7 @@ def parse_vin(out):
     return [int(m.group(1)) & (2**64 - 1) for m in re.finditer(r'^\s*vin_value__=(-?\d+)', first, re.M)]
 
 # ------------------------------------------------------------------ one obligation, end to end
-def process_ob(b, ob, log, seed, replay_dir):
+def process_ob(b, ob, log, seed, replay_dir, prop=None):
     """returns record dict with status in: discharged | violation | undecided | tool-error"""
     rec = dict(name=ob.name, props=ob.props, unit=ob.unit, harness=ob.harness, entry=ob.entry, defs=ob.defs, unwind=ob.unwind,
                backend=ob.backend, bound=ob.bound, desc=ob.desc, tier=ob.tier)
@@ -295,11 +299,11 @@ def process_ob(b, ob, log, seed, replay_dir):
     elif main['verdict'] == 'failed':
         fails = main['failed']
         rec['failed_props'] = [f['desc'] for f in fails][:8]
-        if any('unwinding assertion' in f['desc'] for f in fails):
+        if all('unwinding assertion' in f['desc'] for f in fails):
             rec['status'] = 'tool-error'; rec['why'] = 'unwinding bound too small: ' + '; '.join(f['id'] for f in fails if 'unwinding' in f['desc'])[:300]; return rec
         # replay against natively compiled real code
         os.makedirs(replay_dir, exist_ok=True)
-        rp = os.path.join(replay_dir, '%s-%s.json' % (ob.props[0], re.sub(r'[^A-Za-z0-9_.-]', '_', ob.name)))
+        rp = os.path.join(replay_dir, '%s-%s.json' % (prop or ob.props[0], re.sub(r'[^A-Za-z0-9_.-]', '_', ob.name)))
         vin = main.get('vin', [])
         rep = dict(property=ob.props, obligation=ob.name, unit=ob.unit, harness=ob.harness, entry=ob.entry, defs=ob.defs,
                    failed=[f['desc'] for f in fails][:8], inputs_hex=['%x' % v for v in vin], cbmc_cmd=main['cmd'])
